@@ -74,6 +74,8 @@ def _guard_desc(body, bb):
     rel = f[0]
     if rel == "Bool":
         return "%s=%s" % (_short_call(f[1]), f[2])
+    if rel == "BoolVal":
+        return "%s=%s" % (_short(f[1]), f[2])
     if rel in ("IntEq", "IntNe"):
         return "%s%s%s" % (_short(f[1]), "==" if rel == "IntEq" else "!=", f[2])
     return "%s_%s_%s" % (_short(f[1]), rel, _short(f[2]))
